@@ -107,6 +107,12 @@ type resolvedInfo struct {
 	anchors map[string]anchorInfo
 }
 
+// dynamicRefResolved reports whether resolveRefs resolved the schema's $dynamicRef,
+// which it does in documents of draft 2020-12 only.
+func (info *resolvedInfo) dynamicRefResolved() bool {
+	return info.resolvedDynamicRef != nil || info.dynamicRefAnchor != ""
+}
+
 // Schema returns the schema that was resolved.
 // It must not be modified.
 func (r *Resolved) Schema() *Schema { return r.root }
@@ -505,7 +511,10 @@ func (r *resolver) resolveRefs(rs *Resolved) error {
 			// the ref still treats it lexically.
 			info.resolvedRef = refSchema
 		}
-		if s.DynamicRef != "" {
+		// $dynamicRef was introduced after draft-07: in a draft-07 document it is an unknown
+		// keyword, which is ignored (as resolveURIs ignores $dynamicAnchor there). rs.draft is
+		// the draft of the document s belongs to; validate skips what is left unresolved here.
+		if s.DynamicRef != "" && rs.draft == draft2020 {
 			refSchema, frag, err := r.resolveRef(rs, s, s.DynamicRef)
 			if err != nil {
 				return err
